@@ -425,3 +425,141 @@ pub fn generate_unify(seed: u64, n: usize, _tier: &str, emit: &mut dyn FnMut(Str
         emit(format!("sorted {nvars} 3000 {}", js.join(" ")));
     }
 }
+
+// ------------------------------------------------------------------------------ truth (C15)
+
+/// Family `truth`: judgement sets generated from a hidden ground-truth typing.
+/// payload: `<mode> <nvars> <budget> <judgements…>` exactly as family `unify` (so `eval_unify` serves
+/// it); the generator emits weakenings of the true type of each variable plus equalities between
+/// same-typed variables, and (for odd indices) one injected contradiction.
+#[derive(Clone)]
+enum Truth {
+    Word(Option<usize>, WordUse),
+    Map(usize, usize),
+    Dyn(usize),
+    Fixed(usize, usize),
+}
+
+fn weaker_usages(u: WordUse) -> Vec<WordUse> {
+    USAGES.iter().copied().filter(|x| x.merge(u) == Some(u)).collect()
+}
+
+pub fn generate_truth(seed: u64, n: usize, _tier: &str, emit: &mut dyn FnMut(String)) {
+    for idx in 0..n {
+        let mut r = Rng::for_case(seed, "truth", idx);
+        let ngroups = 1 + r.below(5);
+        // each group = a set of variables sharing one ground-truth type
+        let mut truths: Vec<Truth> = vec![];
+        let mut members: Vec<Vec<usize>> = vec![];
+        let mut nvars = 0usize;
+        for _ in 0..ngroups {
+            let size = 1 + r.below(3);
+            members.push((nvars..nvars + size).collect());
+            nvars += size;
+            truths.push(Truth::Word(None, WordUse::Bytes)); // placeholder
+        }
+        for g in 0..ngroups {
+            let t = match r.below(10) {
+                0..=5 => {
+                    let u = USAGES[r.below(8)];
+                    let w = match u.size() {
+                        Some(s) => Some(s),
+                        None => if r.chance(1, 4) { None } else { Some([8usize, 32, 64, 128, 160, 256][r.below(6)]) },
+                    };
+                    Truth::Word(w, u)
+                }
+                6 | 7 => Truth::Map(r.below(ngroups), r.below(ngroups)),
+                8 => Truth::Dyn(r.below(ngroups)),
+                _ => Truth::Fixed(r.below(ngroups), 1 + r.below(3)),
+            };
+            truths[g] = t;
+        }
+        let mut js: Vec<String> = vec![];
+        for g in 0..ngroups {
+            let vs = members[g].clone();
+            // equalities chaining the group's variables (sometimes redundantly)
+            for w in vs.windows(2) {
+                if r.chance(4, 5) {
+                    js.push(format!("{}>eq:{}", w[0], w[1]));
+                } else {
+                    js.push(format!("{}>eq:{}", w[1], w[0]));
+                }
+            }
+            for &v in &vs {
+                for _ in 0..1 + r.below(3) {
+                    let e = match &truths[g] {
+                        Truth::Word(w, u) => {
+                            let us = weaker_usages(*u);
+                            let uu = us[r.below(us.len())];
+                            // a usage with a fixed size can only be stated at that size
+                            let ww = match uu.size() {
+                                Some(s) => Some(s),
+                                None => if r.chance(1, 2) { None } else { *w },
+                            };
+                            if ww.is_some() && w.is_some() && ww != *w {
+                                "any".to_string()
+                            } else if r.chance(1, 6) {
+                                "any".to_string()
+                            } else {
+                                format!("word:{}:{}", ww.map(|x| x.to_string()).unwrap_or_else(|| "?".into()), usage_name(uu))
+                            }
+                        }
+                        Truth::Map(k, val) => {
+                            if r.chance(1, 6) { "any".into() } else {
+                                let kv = members[*k][r.below(members[*k].len())];
+                                let vv = members[*val][r.below(members[*val].len())];
+                                format!("map:{kv}:{vv}")
+                            }
+                        }
+                        Truth::Dyn(e) => {
+                            if r.chance(1, 6) { "any".into() } else {
+                                format!("dyn:{}", members[*e][r.below(members[*e].len())])
+                            }
+                        }
+                        Truth::Fixed(e, len) => {
+                            if r.chance(1, 6) { "any".into() } else {
+                                format!("fixed:{}:{len}", members[*e][r.below(members[*e].len())])
+                            }
+                        }
+                    };
+                    js.push(format!("{v}>{e}"));
+                }
+            }
+        }
+        let mut mode = "join";
+        if idx % 2 == 1 {
+            // inject one plain contradiction into a random group
+            let g = r.below(ngroups);
+            let v = members[g][r.below(members[g].len())];
+            let bad = match &truths[g] {
+                Truth::Word(w, u) => match r.below(3) {
+                    0 if w.is_some() => format!("word:{}:{}", w.unwrap() + 8, usage_name(if u.size().is_some() { WordUse::Numeric } else { *u })),
+                    1 => format!("map:{v}:{v}"),
+                    _ => {
+                        // an incomparable usage
+                        let bads: Vec<WordUse> = USAGES.iter().copied().filter(|x| x.merge(*u).is_none()).collect();
+                        if bads.is_empty() { format!("map:{v}:{v}") } else {
+                            let b = bads[r.below(bads.len())];
+                            format!("word:{}:{}", b.size().map(|x| x.to_string()).unwrap_or_else(|| "?".into()), usage_name(b))
+                        }
+                    }
+                },
+                Truth::Map(..) => if r.chance(1, 2) { format!("fixed:{v}:2") } else { "word:160:address".to_string() },
+                Truth::Dyn(_) => format!("map:{v}:{v}"),
+                Truth::Fixed(e, len) => if r.chance(1, 2) { format!("fixed:{}:{}", members[*e][0], len + 1) } else { format!("map:{v}:{v}") },
+            };
+            js.push(format!("{v}>{bad}"));
+            mode = "contra";
+            // remember which variable was poisoned by putting it first
+            js.insert(0, format!("{v}>any"));
+        }
+        emit(format!("sorted {nvars} 3000 {mode} {}", js.join(" ")));
+    }
+}
+
+pub fn eval_truth(payload: &str) -> String {
+    // strip the mode token and reuse the unify evaluation
+    let t: Vec<&str> = payload.split_whitespace().collect();
+    let rest: Vec<&str> = t[..3].iter().chain(t[4..].iter()).copied().collect();
+    eval_unify(&rest.join(" "))
+}
